@@ -6,7 +6,8 @@ from vlib import *
 CREDS_ACTIONS = ("ParseDoc", "SyntaxError", "NotArray", "RefuseNotString", "RefuseEmptyUser", "RefuseEmptyPass",
                  "TakeEntry", "BuildRegistry", "Export")
 START_ACTIONS = ("ParseSettingsFail", "ParseSettingsOk", "ParseHostsFail", "ParseHostsOk", "ValidateRpFail",
-                 "ValidateProtoFail", "ValidateCredsFail", "ValidateSettingsOk", "ValidateListFail", "ValidateListOk", "ValidateHostsOk")
+                 "ValidateProtoFail", "ValidateCredsFail", "ValidateSettingsOk", "ValidateListFail", "ValidateListOk", "ValidateHostsOk",
+                 "BuildDemuxFail", "BuildDemuxOk")
 
 
 def repo_dir():
@@ -156,6 +157,13 @@ def run(ctx):
         got = cnt.get("hosts_%s_accept" % path, 0) + cnt.get("hosts_%s_refuse" % path, 0)
         if got != n_hosts or n_hosts == 0 or cnt.get("hosts_%s_accept" % path, 0) == 0:
             raise ToolError("hosts files through the %s: %d of %d executed, %d accepted" % (path, got, n_hosts, cnt.get("hosts_%s_accept" % path, 0)))
+    n_pem = count_tagged(start["out"], "PEMFILE")
+    if cnt.get("pem_files", 0) != n_pem or cnt.get("pem_files_multi_chain_accept", 0) == 0 or cnt.get("pem_files_multi_chain_refuse", 0) == 0:
+        raise ToolError("certificate / key files: %d of %d written, %d / %d several-section chains loadable / unloadable"
+                        % (cnt.get("pem_files", 0), n_pem, cnt.get("pem_files_multi_chain_accept", 0), cnt.get("pem_files_multi_chain_refuse", 0)))
+    for form in ("settings-built", "hosts-built", "both-built"):
+        if cnt.get("rows_%s_start" % form, 0) == 0 or cnt.get("rows_%s_refuse" % form, 0) == 0:
+            raise ToolError("vacuous run: start-up rows with %s never %s" % (form, "started" if cnt.get("rows_%s_start" % form, 0) == 0 else "refused"))
     if cnt.get("exports_refused_probes", 0) == 0 or cnt.get("creds_files_case", 0) == 0 or cnt.get("builder_rows_start", 0) == 0:
         raise ToolError("vacuous run: no export request for an unconfigured name / no case-twin file / no settings built")
     if ctx.thorough and (cnt.get("wizard_runs", 0) == 0 or cnt.get("endpoint_exports", 0) == 0) and not r["violations"]:
@@ -171,12 +179,13 @@ def run(ctx):
         "traces_validated_against_impl": n_files + n_rows + 2 * n_hosts + accepted,
         "replayed_behaviours": n_files + n_rows + 2 * n_hosts,
         "hosts_files": n_hosts,
+        "pem_files": n_pem,
         "recorded_traces": accepted,
         "recorded_traces_by_kind": by_kind,
         "evaluations": r["evaluations"], "distinct_nontrivial": r["distinct_nontrivial"],
         "rule": "one evaluation = one comparison against a TLC-predicted value: a credentials file loaded through toml::from_str::<Settings> "
                 "(clients), one authenticator probe, one exported configuration parsed back (and its pair put to the authenticator), one export request for an unconfigured look-alike name (must be refused), "
-                "one start-up row (Settings + TlsHostsSettings + Core::new), the same row through Settings::builder(), one hosts file through TlsHostsSettings::builder() "
+                "one start-up row (Settings + TlsHostsSettings + Core::new), the same row through Settings::builder() and started again with the settings built / the hosts built / both built, one hosts file through TlsHostsSettings::builder() "
                 "and through Core::reload_tls_hosts_settings on a running Core, "
                 "one wizard / endpoint binary run. Non-trivial = a credentials file in which some value is not a plain one-line basic string equal to its "
                 "source text (escape, literal or multi-line form, inner padding, non-string, missing key), a wizard pair that needs escaping, or a start-up "
@@ -193,7 +202,12 @@ def run(ctx):
         "alphabet: a Z space \" ' \\ # = e-acute (raw and \\u00E9), LF/TAB (escaped and, in multi-line strings, raw), \\U00000061; token strings up to length %d (%d for the user x password product)" % (3 if ctx.thorough else 2, 1),
         "a credentials file with an empty, missing or non-string username/password may be refused as a whole or loaded without that entry; it must never yield a pair that is not written",
         "start-up is observed at toml::from_str (both files) and Core::new, i.e. before sockets are bound" + ("; refusal rows are additionally run against the real binary (sampled 1/97), which must exit unsuccessfully" if ctx.thorough else ""),
-        "quick tier: start-up rows with at most two dimensions off one of two base rows; thorough: additionally the full product over the 14 core hosts files",
+        "quick tier: start-up rows with at most two dimensions off one of two base rows (the second has every optional section present and valid; TLC asserts that every refusal cause "
+        "occurs alone in a row whose other sections are all present and valid, and in one where they are absent); thorough: additionally the full product over the 14 core hosts files",
+        "certificate / key files are generated by the spec as sequences of up to %d sections (CERTIFICATE, PRIVATE KEY, text outside sections), each intact or damaged (character outside base64, END line missing, "
+        "file cut inside the body, a body line lost); the harness only substitutes its key material. Each file is the chain, the key, or both of a single main host (start-up in both base rows%s, builder, reload); "
+        "six two-section damaged chains / combined files additionally in every list, alone or after a good host, pairwise with every other dimension. Hosts the statement does not decide "
+        "(a damaged section the role does not need) are left out; a section that is well-formed PEM but not a certificate / key must be refused at start-up and reload, the builder's answer is open" % ((3, ", and with one more dimension varied") if ctx.thorough else (2, "")),
         "hosts files are generated by the spec: the duplicate name in every one of the 10 pairs of lists (a list with itself included) and 7 three/four-list placements, "
         "each in three backgrounds; one unloadable host (5 kinds) in each of the four lists, alone or after a good host; duplicate / unloadable are defined declaratively "
         "over the host sequence (HostsDup, HostsUnloadable) and the staged model threads the seen-set through the lists like TlsHostsSettings::validate (SeenAll)",
